@@ -132,3 +132,33 @@ def c14_print(e):
     soft = e.mkbool("soft_wrap")
     s = "".join(_PRINT_SIGMA[c] for c in cs)
     return _print_ok(s, True if soft else False)
+
+
+# --- rendering and measuring never raise, at any width >= 1 (C+S) -----------------------------------------------------
+from rich.measure import Measurement  # noqa: E402
+from vf import catalogue as cat  # noqa: E402
+
+
+def _mk_noraise(lo, hi, tiers, timeout, wmax):
+    @symx("C14-render-noraise-w%d-trees%d-%d" % (wmax, lo, hi), tiers=tiers, timeout=timeout, kind="C+S",
+          functions=["rich/console.py:Console.render", "rich/measure.py:Measurement.get", "<each tree's __rich_console__/__rich_measure__>"],
+          bounds="catalogue trees %s x every width 1..%d, including widths far below the structural minimum, x legacy_windows "
+                 "(solver-enumerated, native): Console.render, Console.print and Measurement.get terminate without raising"
+                 % (cat.NAMES[lo:hi], wmax))
+    def h(e):
+        i = int(e.mk("tree", lo, hi - 1))
+        name, factory, smin = cat.TREES[i]
+        w = int(e.mk("width", 1, wmax))
+        legacy = bool(e.mkbool("legacy_windows"))
+        c = cat.console(legacy_windows=legacy, force_terminal=legacy, width=w)
+        cat.render_lines(c, factory(), w)
+        Measurement.get(c, factory(), w)
+        c.print(factory())
+        return True
+    return h
+
+
+_NTR = len(cat.TREES)
+for _lo in range(0, _NTR, 9):
+    _mk_noraise(_lo, min(_NTR, _lo + 9), ("quick",), 900, 40)
+    _mk_noraise(_lo, min(_NTR, _lo + 9), ("thorough",), 3000, 200)
